@@ -204,6 +204,12 @@ class State:
                 notify_vars[var_name] = getattr(notify_vars[f"{parts[0]}.{parts[1]}.old"], parts[3], None)
             elif 1 <= var_name.count(".") <= 3 and not cls.exist(var_name):
                 notify_vars[var_name] = None
+            elif len(parts) in (2, 3):
+                #
+                # not notified yet: capture the current value now, since the trigger
+                # expression is evaluated later when the value might have changed
+                #
+                notify_vars[var_name] = cls.get(var_name)
         return notify_vars
 
     @classmethod
